@@ -10,12 +10,11 @@
 """
 from __future__ import annotations
 
-import itertools
 import json
 import random
 import time
 import uuid
-from typing import Any, Dict, List, Optional, Tuple
+from typing import Any, Dict, List, Tuple
 
 from bounded.common import F, K, N, U, make_cer, pmap, run as run_coro, set_cer
 
